@@ -64,6 +64,26 @@ def run(ctx):
             continue
         ctx.violation("counter:event%d" % (b["matched"] + 1),
                       "counter history rejected at event %d" % (b["matched"] + 1), tr)
+    # 6. assembly of the policy (GetExtraSet + config.GetConf, as cmd/runprog does): the extra lists add exactly
+    #    what they declare to the default policy
+    ga = ctx.tlc("PolicyAssembly_Gen", cfg="CONSTANTS Comps = {\"a\"}\n  MaxLists = %d\nINIT Init\nNEXT Next\n" % ctx.pick(2, 4), timeout=600, count=False)
+    ctx.tlc_ok("PolicyAssembly_Gen", ga)
+    world = ctx.mkdir("world")
+    ctx.vdrive("c18", ["asm", os.path.join(ga.dir, "asmcases.ndjson"), os.path.join(ga.dir, "asmqueries.ndjson"), world, ctx.path("asmobs.ndjson")])
+    asmobs = ctx.read_ndjson(ctx.path("asmobs.ndjson"))
+    ja = ctx.tlc("PolicyAssembly_Judge", cfg="CONSTANTS Comps = {\"a\"}\nINIT Init\nNEXT Next\n", files={"asmobs.ndjson": asmobs}, timeout=1800, heap="12g", count=False)
+    ctx.tlc_ok("PolicyAssembly_Judge", ja)
+    for b in ctx.read_ndjson(os.path.join(ja.dir, "asmbad.ndjson")):
+        o = asmobs[b["i"] - 1]
+        if b["j"] == "drift":
+            drift += 1
+            if drift <= 5:
+                ctx.note("DRIFT (declared extra refused) %s" % json.dumps(o))
+            continue
+        lists = ";".join("%s=%s" % (f, ",".join(o[f])) for f in ("rraw", "rext", "wraw", "wext") if o[f])
+        ctx.violation("assembly:%s:%s:%s" % (lists, o["class"], "/".join(o["q"])),
+                      "assembled policy answers %r, the default policy %r, declared extras allow only %r" % (o["got"], o["base"], b["exp"]), o)
+    ctx.cov["assembly_lines"] = len(asmobs)
     ctx.traces = len(traces)
     ctx.cov["drift"] = drift
     ctx.cov["judged_table_lines"] = len(setobs) + len(compobs)
@@ -71,7 +91,7 @@ def run(ctx):
     ctx.assumptions += ["generated paths (/vqa/...) do not exist on the host, so EvalSymlinks contributes nothing",
                         "string convention of entries: p, p/, p/* as written by the driver"]
     nontriv = sum(1 for o in setobs if o["set"]) + sum(1 for o in compobs if o["e"] or o["b"]) + sum(1 for x in traces if x["ev"])
-    return dict(evaluations=len(setobs) + len(compobs) + len(traces), distinct=nontriv,
+    return dict(evaluations=len(setobs) + len(compobs) + len(traces) + len(asmobs), distinct=nontriv,
                 rule="TLC enumerates every (entry set, query), every composite (class, set, soft-ban, query) and every counter history within the bounds; non-trivial = non-empty set / non-empty history",
                 exhaustive=True)
 
